@@ -60,7 +60,7 @@ for (tn, tt, nd, sg, bits) in SHAPES + THOROUGH_SHAPES:
     D = shape_defs(tt, nd, sg, bits)
     UNITS.append(Unit("bulk.do_work_chunk." + tn, "chunks.c", defines=D + ["U_DO_WORK_CHUNK"], enforce="do_work_chunk",
                       tier=tier, lifts={"body": Lift(BULK, r"void do_work_chunk\(Ts& ts, std::uint32_t const index\) const",
-                                                     rules=DWC_RULES, post=[Auto(4)], loops={1: LOOP_DWC, "count": 1})},
+                                                     rules=DWC_RULES, post=[Auto(None)], loops={1: LOOP_DWC, "count": 1})},
                       funcs=[BULK + ": set_value_loop_visitor::do_work_chunk [Shape=%s]" % tt], min_obligations=20,
                       extra_flags=["--unsigned-overflow-check", "--conversion-check"], timeout=300))
 
